@@ -485,6 +485,30 @@ std::string step(const std::vector<std::string> &w)
       scheduleOne(c + i, nest ? c + n + i : nullptr, kind);
     return "ok";
   }
+  if (op == "sched_dtor" && w.size() == 2) {
+    // closures that are the last owner of state whose DESTRUCTOR schedules a follow-up closure (run k of ...): the
+    // tasking system may destroy a finished closure wherever it likes, but not while holding a lock schedule() needs
+    size_t n = (size_t)vh::to_ll(w[1]);
+    Batch b;
+    b.n = 2 * n;
+    b.counts.reset(new std::atomic<int>[b.n]);
+    for (size_t i = 0; i < b.n; ++i)
+      b.counts[i] = 0;
+    std::atomic<int> *c = b.counts.get();
+    g_batches.push_back(std::move(b));
+    struct DtorSched {
+      std::atomic<int> *follow;
+      explicit DtorSched(std::atomic<int> *f) : follow(f) {}
+      ~DtorSched() { std::atomic<int> *f = follow; tasking::schedule([f]() { f->fetch_add(1); }); }
+    };
+    for (size_t i = 0; i < n; ++i) {
+      auto st = std::make_shared<DtorSched>(c + n + i);
+      std::atomic<int> *ci = c + i;
+      tasking::schedule([st, ci]() { ci->fetch_add(1); });
+      st.reset();   // the closure inside the tasking system is the last owner now
+    }
+    return "ok";
+  }
   if (op == "sched_lv" && w.size() == 2) {
     // a NAMED closure (an lvalue owning heap state) handed to schedule() twice: schedule() takes its argument by value,
     // so the caller's closure is intact for the second call; run k of closure i counts in slot 2*i + k
